@@ -433,6 +433,12 @@ lzma_index_prealloc(lzma_index *i, lzma_vli records)
 	if (records > PREALLOC_MAX)
 		records = PREALLOC_MAX;
 
+	// If the Index being decoded has no Records, there is nothing to
+	// preallocate. Keep the default because lzma_index_append() needs
+	// room for at least one Record in a new Record group.
+	if (records == 0)
+		records = INDEX_GROUP_SIZE;
+
 	i->prealloc = (size_t)(records);
 	return;
 }
